@@ -15,7 +15,6 @@ package main
 //      judged by the reference semantics (engine S).
 
 import (
-	"context"
 	"encoding/hex"
 	"fmt"
 	"math"
@@ -840,7 +839,7 @@ func runLuaPost(src string, timeout time.Duration, setup func(L *lua.LState), po
 	if setup != nil {
 		setup(L)
 	}
-	ctx, cancel := context.WithTimeout(context.Background(), timeout)
+	ctx, cancel := newBudgetCtxWithBackstop(int64(timeout/time.Millisecond)*20000, 2*time.Minute)
 	defer cancel()
 	L.SetContext(ctx)
 	defer func() {
